@@ -19,6 +19,7 @@ package forward
 //@   ensures paired: calls(s.stateListener) == 2 && callarg(s.stateListener, 0, 1) == 0 && callarg(s.stateListener, 1, 1) == 1 && calls(s.next.ServeHTTP) == 1
 //@   ensures aborts_are_not_swallowed: !panicked(s.next.ServeHTTP)
 //@   at_call s.stateListener names_this_request: arg0 == req.URL
+//@   at_call s.next.ServeHTTP the_forwarder_gets_this_very_request_and_writer: arg0 == rw && arg1 == req
 //@   ensures_panic paired_when_forwarding_aborts: calls(s.next.ServeHTTP) == 1 ==> calls(s.stateListener) == 2 && callarg(s.stateListener, 1, 1) == 1
 
 // ---- C08: the Director of the pre-configured ReverseProxy -------------------------------------------------------------
